@@ -140,3 +140,49 @@ theorem Ttrace_closed (e : Env K) (h : Assembled e) (hv : Velocity e) (ha : e.al
   rw [split, hQ, hTr]; ring
 
 end AurelVerif.C09
+
+namespace AurelVerif.C09
+open AurelVerif.Gen.Core AurelVerif.Tensor AurelVerif.CoreTac AurelVerif.C08
+
+variable {K : Type} [Field K]
+
+/-- lowering both indices of a raised tensor returns it (γ⁻¹γ = 1, γ symmetric). -/
+theorem lower_raise (G M T : Fin 3 → Fin 3 → K) (hGM : ∀ i k, ∑ j, G i j * M j k = delta i k)
+    (hMs : ∀ i j, M i j = M j i) (i j : Fin 3) :
+    ∑ c, ∑ d, M i c * M j d * (∑ a, ∑ b, G a c * G b d * T a b) = T i j := by
+  have e1 : ∑ c, ∑ d, M i c * M j d * (∑ a, ∑ b, G a c * G b d * T a b)
+      = ∑ a, ∑ b, (∑ c, G a c * M c i) * (∑ d, G b d * M d j) * T a b := by
+    simp only [Fin.sum_univ_three, hMs i 0, hMs i 1, hMs i 2, hMs j 0, hMs j 1, hMs j 2]
+    ring
+  rw [e1]
+  simp only [hGM, delta, Fin.sum_univ_three]
+  revert i j
+  refine fin3_cases ?_ ?_ ?_ <;> refine fin3_cases ?_ ?_ ?_ <;> simp
+
+theorem Stress_specs (e : Env K) (c d : Fin 3) :
+    Stressup3_n e c d = ∑ a : Fin 3, ∑ b : Fin 3, e.gammaup3 a c * e.gammaup3 b d * e.Tdown4 a.succ b.succ
+    ∧ Stressdown3_n e c d = ∑ a, ∑ b, e.gammadown3 a c * e.gammadown3 b d * e.Stressup3_n a b := by
+  revert c d; cases3 <;> cases3 <;> (constructor <;> (unfold_core; ring))
+
+/-- **`S_ij = (ρ+p) W² v_i v_j + p γ_ij`** (`v_i = γ_ik v^k`). -/
+theorem stress_closed (e : Env K) (h : Assembled e) (hv : Velocity e) (hi : InvMetric e) (ha : e.alpha ≠ 0)
+    (hh : e.hdown4 = hdown4 e) (hT : e.Tdown4 = Tdown4 e) (hS : e.Stressup3_n = Stressup3_n e) (i j : Fin 3) :
+    Stressdown3_n e i j = (e.rho + e.press) * e.w_lorentz ^ 2
+        * (∑ k, e.gammadown3 i k * e.velup3 k) * (∑ k, e.gammadown3 j k * e.velup3 k)
+      + e.press * e.gammadown3 i j := by
+  have hsym := h.hsym
+  rw [(Stress_specs e i j).2, hS]
+  have step : ∑ a, ∑ b, e.gammadown3 a i * e.gammadown3 b j * Stressup3_n e a b
+      = ∑ c, ∑ d, e.gammadown3 i c * e.gammadown3 j d
+          * (∑ a : Fin 3, ∑ b : Fin 3, e.gammaup3 a c * e.gammaup3 b d * e.Tdown4 a.succ b.succ) := by
+    refine Finset.sum_congr rfl fun a _ => Finset.sum_congr rfl fun b _ => ?_
+    rw [(Stress_specs e a b).1, hsym a i, hsym b j]
+  rw [step, lower_raise e.gammaup3 e.gammadown3 (fun a b => e.Tdown4 a.succ b.succ) hi hsym i j]
+  have ui := udown_spatial e h hv ha i
+  have uj := udown_spatial e h hv ha j
+  have hgij : e.gdown4 i.succ j.succ = e.gammadown3 i j := by
+    rw [h.hg4]; exact (gdown4_layout e).2.2 i j
+  rw [hT, Tdown4_spec, hh, hdown4_spec, ui, uj, hgij]
+  ring
+
+end AurelVerif.C09
